@@ -74,6 +74,26 @@ def run(chk):
                               detail=d)
         if not seen:
             chk.fail_closed(rid, "Op::resolve_constant: no arithmetic call found")
+        # nothing else may produce a folded constant: no strict Value equality (the run time compares with eq_lossy: 1 == 1.0), and no `Some(..)`
+        # built by hand — the folded value is the `.ok()` of the operator's own method
+        other = []
+        for x in facts.family(OP_CONST):
+            xb = facts.body(x)
+            for bb, t in xb.calls():
+                if re.search(r"<value::value::Value as std::cmp::PartialEq>::(eq|ne)$", xb.callee(t)):
+                    other.append(("strict Value equality (PartialEq)", t["ln"]))
+            for bi, si, st in xb.iter_stmts():
+                rv = st["rv"]
+                if st["d"]["l"] == 0 and not st["d"].get("p") and rv["k"] == "agg" and rv.get("adt") == "std::option::Option" and rv.get("variant") == "Some" \
+                        and x == OP_CONST:
+                    other.append(("a hand-built Some(..)", st.get("ln")))
+        d = {"fn": OP_CONST, "other_constant_producers": other}
+        chk.instance(rid, d, ok=not other)
+        for what, ln in other:
+            chk.violation(rid, b.file, OP_CONST, "constant folded by %s" % what,
+                          "Op::resolve_constant produces a constant through %s (line %s) instead of the operator's run-time method: the folded value can differ "
+                          "from what the program computes (e.g. `1 == 1.0` is true at run time, false under strict equality)" % (what, ln), detail=d,
+                          loc="%s:%s" % (b.file, ln))
 
     rid = "R12g"
     chk.rule(rid, "Target::insert_type_def records the assigned constant only under path.is_root()", floor=2)
